@@ -207,7 +207,7 @@ var c17Spec = &histSpec{Prop: "C17", Alphabet: c17Alphabet, Check: func(cfg Rout
 // c17RulePool: constrained parameters (regexp and interceptor) with two routes below them, so that the literal text
 // after the parameter gets split and stays split when one of the two is removed. In such states a rename of the
 // remaining route is still ambiguous, and a pattern with a different rule at the same place is still not.
-var c17RulePool = []string{"/p/{x:\\d+}/y", "/p/{x:\\d+}/z", "/p/{x:digit}/y", "/p/{x:digit}/z", "/p/{x:\\d+}"}
+var c17RulePool = []string{"/p/{x:\\d+}/y", "/p/{x:\\d+}/z", "/p/{x:digit}/y", "/p/{x:digit}/z", "/p/{x:\\d+}", "/p/{x:\\d+}/y/{w}"} // the last one: a plain parameter below the constrained one, renamed on its own
 
 func c17RuleAlphabet() []Op {
 	var ops []Op
@@ -221,8 +221,8 @@ func c17RuleAlphabet() []Op {
 }
 
 var c17RuleSpec = &histSpec{Prop: "C17", Alphabet: c17RuleAlphabet, Check: func(cfg RouterCfg, hist []Op, r *Router, t *ref.Table, c *explore.Child, outc map[string]struct{}) {
-	pool := append(append([]string{}, c17RulePool...), "/p/{s:word}/y", "/p/{s:[0-9]+}/z", "/p/{s}/y", "/p/{s:word}/z", "/p/{-x:digit}/y")
-	paths := []string{"/p/1/y", "/p/1/z", "/p/a/y", "/p/12", "/p/1/", "/p/1/y/y"}
+	pool := append(append([]string{}, c17RulePool...), "/p/{s:word}/y", "/p/{s:[0-9]+}/z", "/p/{s}/y", "/p/{s:word}/z", "/p/{-x:digit}/y", "/p/{x:\\d+}/y/{v}", "/p/{x:\\d+}/y/{w:word}")
+	paths := []string{"/p/1/y", "/p/1/z", "/p/a/y", "/p/12", "/p/1/", "/p/1/y/y", "/p/1/y/"}
 	c17Check(cfg, hist, r, t, c, outc, pool, paths)
 }}
 
